@@ -4,7 +4,12 @@
 // the cost estimates; deterministic), runs the BFS of every configuration owned by this shard.
 // Options:  only=<substring>  run only configurations whose name contains the substring (debugging)
 //           below_top=1       RadixHeap: allow pushes below the key last returned by top() (see c13_radix_heap.hpp)
+//           maxkey=0|1        RadixHeap: force the BFS alphabet without/with the largest key (default: automatic)
+//           depth=<d> tsize=<n> ntables=<n> nk=<n> afull=<n>   override the tier's bounds (experiments)
+// Built twice by checks/C13.py: ASan with asserts (everything) and ASan -DNDEBUG -DC13_RADIX_ONLY (RadixHeap only).
 // Replay string: <configuration name>|<op,op,...>
+#include <sys/resource.h>
+
 #include <algorithm>
 
 #include "c13_common.hpp"
@@ -13,18 +18,56 @@ namespace c13 {
 Ctx* g_ctx = nullptr;
 }
 
+// glibc's assert() ends in __assert_fail(); this replacement prints the same line but with the function name reduced to
+// `ns::Class::function` (template arguments and parameter list removed), so that the failure signature derived from it
+// does not depend on the instantiation, and aborts as the original does.
+extern "C" void __assert_fail(const char* expr, const char* file, unsigned int line, const char* func) noexcept {
+    std::string f = func ? func : "?", o;
+    size_t par = std::string::npos;
+    int depth = 0;
+    for (size_t i = 0; i < f.size(); ++i) {  // position of the parameter list's '(' at template depth 0
+        if (f[i] == '<') depth++;
+        else if (f[i] == '>') depth--;
+        else if (f[i] == '(' && depth == 0 && (i < 8 || f.compare(i - 8, 8, "operator") != 0)) {
+            par = i;
+            break;
+        }
+    }
+    if (par != std::string::npos) f = f.substr(0, par);
+    depth = 0;
+    for (char ch : f) {  // drop template arguments
+        if (ch == '<') depth++;
+        else if (ch == '>') depth--;
+        else if (depth == 0) o += ch;
+    }
+    size_t sp = o.rfind(' ');  // drop the return type
+    if (sp != std::string::npos) o = o.substr(sp + 1);
+    fprintf(stderr, "%s:%u: %s: Assertion `%s' failed.\n", file, line, o.c_str(), expr);
+    fflush(stderr);
+    abort();
+}
+
 int main(int argc, char** argv) {
     vh::init(argc, argv);
     bool T = vh::args().thorough();
     std::vector<c13::Config> cfgs;
-    c13::register_dary_a(cfgs, T);
-    c13::register_dary_b(cfgs, T);
-    c13::register_addr_a(cfgs, T);
-    c13::register_addr_b(cfgs, T);
-    c13::register_radix_a(cfgs, T);
-    c13::register_radix_b(cfgs, T);
-    c13::register_radix_c(cfgs, T);
-    c13::register_radix_d(cfgs, T);
+#ifndef C13_RADIX_ONLY  /* the NDEBUG build of this harness contains the RadixHeap configurations only */
+    c13::register_dary_1(cfgs, T);
+    c13::register_dary_2(cfgs, T);
+    c13::register_dary_3(cfgs, T);
+    c13::register_dary_4(cfgs, T);
+    c13::register_addr_1(cfgs, T);
+    c13::register_addr_2(cfgs, T);
+    c13::register_addr_3(cfgs, T);
+#endif
+    c13::register_radix_1(cfgs, T);
+    c13::register_radix_2(cfgs, T);
+    c13::register_radix_3(cfgs, T);
+    c13::register_radix_4(cfgs, T);
+    c13::register_radix_5(cfgs, T);
+    c13::register_radix_6(cfgs, T);
+    c13::register_radix_7(cfgs, T);
+    c13::register_radix_8(cfgs, T);
 
     if (vh::args().has_replay) {
         return vh::replay_one([&](const std::string& r) {
@@ -64,26 +107,19 @@ int main(int argc, char** argv) {
     std::set<std::string> sampled;
     for (size_t i = 0; i < cfgs.size(); ++i) {
         std::string cls = cfgs[i].name.substr(0, cfgs[i].name.find('<'));
-        if (!sampled.insert(cls).second || cfgs[i].sample.empty()) continue;
+        if (cfgs[i].sample.empty() || !sampled.insert(cls).second) continue;
         if (std::find(mine.begin(), mine.end(), i) != mine.end()) vh::out_line("SAMPLE " + cfgs[i].sample);
     }
     for (size_t i : mine) {
         double t0 = vh::now();
-        // vh::run_isolated() zeroes every counter when it (re)starts an exploration, so the counters of the
-        // configurations this shard has already finished are saved here and added back afterwards.
-        struct Saved {
-            std::string name;
-            long long v;
-            bool mx;
-        };
-        std::vector<Saved> saved;
-        for (int k = 0; k < vh::shm()->nstat; ++k) saved.push_back({vh::shm()->stat_name[k], vh::shm()->stat_val[k], vh::shm()->stat_is_max[k]});
+        vh::disabled_labels().clear();  // crash classes are per instantiation; do not carry them over to the next configuration
+        struct rusage ru0, ru1;
+        getrusage(RUSAGE_CHILDREN, &ru0);
         cfgs[i].run();
-        for (auto& sv : saved) {
-            if (sv.mx) vh::stat_max(sv.name.c_str(), sv.v);
-            else vh::stat_add(sv.name.c_str(), sv.v);
-        }
-        vh::note(vh::fmt("%s: %.1fs (shard %d)", cfgs[i].name.c_str(), vh::now() - t0, sh));
+        getrusage(RUSAGE_CHILDREN, &ru1);
+        double cpu = (ru1.ru_utime.tv_sec - ru0.ru_utime.tv_sec) + 1e-6 * (ru1.ru_utime.tv_usec - ru0.ru_utime.tv_usec) +
+                     (ru1.ru_stime.tv_sec - ru0.ru_stime.tv_sec) + 1e-6 * (ru1.ru_stime.tv_usec - ru0.ru_stime.tv_usec);
+        vh::note(vh::fmt("%s: wall %.1fs cpu %.1fs (shard %d)", cfgs[i].name.c_str(), vh::now() - t0, cpu, sh));
         vh::stat_add("configurations");
     }
     return vh::finish();
